@@ -71,9 +71,9 @@ def check(src, rep):
     rep.guard(rule_t2, src, rep, it, counts)
     rep.guard(rule_structure, src, rep, counts)
     rep.extracted["counts"] = counts
-    rep.floor("fmtfuncs helpers", counts.get("fmtfuncs", 0), 24)
+    rep.floor("fmtfuncs helpers", counts.get("fmtfuncs", 0), 20)
     rep.floor("spellings evaluated", counts.get("spellings", 0), 90)
-    rep.floor("guarded table lookups", counts.get("guarded_lookups", 0), 10)
+    rep.floor("guarded table lookups", counts.get("guarded_lookups", 0), 4)
 
 
 def _expected_for_name(name, fg, bg, sty):
